@@ -325,7 +325,7 @@ def check_C11(tier, seed):
                       'Geometric clause (props/C11_volume.v, order r3): with sqrt g the Jacobian series of the returned position vector (props/C01_spec.v, attribute values only), the poloidal averages of its r and r^3 '
                       'coefficients are spsi G0/B0 and spsi G0/(2 B0) (3 etabar^2 - 4 B20/B0 + 2 (G2 + iota I2)/G0) at every grid point (from the Jacobian identities proved in C01), and their grid quadrature over varphi gives '
                       'V\' = 4 pi^2 |G0|/B0^2 and V\'\' = the reported d2_volume_d_psi2, for every grid size. Left as definitions: V(r) is the triple integral of |sqrt g|; the grid quadrature stands for the varphi integral.',
-                      gprops=False, seq_obligations=['props/C11_spec.v', 'props/C11.v', 'props/C04_spec.v', 'props/C01_spec.v', 'props/C01.v', 'props/C11_volume.v'], theory_obligations=['Series'],
+                      gprops=False, seq_obligations=['props/C11_spec.v', 'props/C11.v'] + C01_SEQ + ['props/C11_volume.v'], theory_obligations=['Series'],
                       theorems=['C11_merc_sum', 'C11_well_closed', 'C11_V2_closed', 'C11_vanish_without_pressure', 'C11_geod_nonpositive',
                                 'C11_volume.avg_sqrtg1', 'C11_volume.avg_sqrtg3', 'C11_volume.C11_volume_h0', 'C11_volume.C11_volume_hN'])
 
@@ -429,7 +429,7 @@ def check_C12(tier, seed):
                       'Jacobian coefficients (props/C12_jacobian.v): the code\'s g0, g1c, g20, g2c, g2s ARE the coefficients of the triple product e_r.(e_theta x e_phi) of the second-order position vector '
                       '(series algebra of C01_spec; pure algebra), no other harmonic occurs through r^3 except g1s, and g1s vanishes by the O(r^2) Jacobian identity of C01. For order-r3 objects the code still uses the '
                       'second-order position vector (the r^3 average of the full Jacobian is g20 + 4 lambda g0: C12_coefficients_r3), as the property states.',
-                      gprops=False, gprops_from=[('C08', rs), ('C07', rs)], seq_obligations=['props/C12_quartic.v', 'props/C04_spec.v', 'props/C01_spec.v', 'props/C01.v', 'props/C12_jacobian.v'], theory_obligations=['RootSelect', 'Series', 'FloatOrder'],
+                      gprops=False, gprops_from=[('C08', rs), ('C07', rs)], seq_obligations=['props/C12_quartic.v'] + C01_SEQ_R2 + ['props/C12_jacobian.v'], theory_obligations=['RootSelect', 'Series', 'FloatOrder'],
                       theorems=['C12_quartic', 'C12_K_relation', 'RootSelect.rc_is_sentinel_or_candidate', 'RootSelect.rc_minimal', 'RootSelect.no_candidate_sentinel',
                                 'RootSelect.rsing_min_le', 'RootSelect.quadratic_candidate_exact', 'RootSelect.linear_candidate_exact',
                                 'C12_jacobian.C12_coefficients_r2', 'C12_jacobian.C12_coefficients_r3', 'C12_jacobian.C12_jacobian_h0', 'C12_jacobian.C12_jacobian_hN', 'C12_jacobian.g1s_vanishes',
@@ -502,7 +502,7 @@ def check_C01(tier, seed):
                       'order r3: avg tor[r^3] = avg jac[r^3] = 0. Hypotheses: admissibility (sG^2 = spsi^2 = 1, constants, etabar, curvature, d_varphi_d_phi non-zero, B0 > 0, |G0|/B0 > 0), sigma equation and O(r^2) system solved '
                       '(oracle residuals, measured each run). Not claimed because they contain coefficients the code sets to zero (Z3, X3c3, ...): rad[r^2], pol[r^4], the second harmonics of tor[r^3], jac[r^3]. '
                       'The harness evaluates the same claims on live objects with an independent numpy series algebra (FFT in the angle), all orders, both signs, symmetric and non-symmetric, fresh and history-built objects.',
-                      gprops=False, seq_obligations=['props/C04_spec.v', 'props/C01_spec.v', 'props/C01.v'], theory_obligations=['Series'], ncorr=(8 if tier == 'quick' else 60),
+                      gprops=False, seq_obligations=C01_SEQ, theory_obligations=['Series'], ncorr=(8 if tier == 'quick' else 60),
                       theorems=['C01_r1_h0', 'C01_r1_hN', 'C01_r2_h0', 'C01_r2_hN', 'C01_r3_h0', 'C01_r3_hN', 'pol3_avg_identity', 'crl1_identity', 'Series.teval_tmul', 'Series.teval_tdth_derive', 'Series.seval_smul'])
 
 
@@ -520,6 +520,10 @@ def check_C10(tier, seed):
                       ncorr=(6 if tier == 'quick' else 40),
                       theorems=['C10_two_ways', 'C10_sym12', 'C10_divfree', 'C10_tangent_contraction', 'C10_scale_length', 'C10_cylindrical_is_frenet', 'C10_cartesian_is_rotation_of_that',
                                 'C10_cartesian_rotates_frenet', 'C10_tangent_slice_curl', 'C10_vacuum_tangent_slice_symmetric', 'C10_vacuum.C10_vacuum', 'C10_vacuum.C10_sym23', 'C10_vacuum.C10_harmonic'])
+
+
+C01_SEQ_R2 = ['props/C04_spec.v', 'props/C01_spec.v', 'props/C01_common.v', ['props/C01_facts2.v', 'props/C01_r1.v'], 'props/C01_r2base.v', ['props/C01_r2a.v', 'props/C01_r2b.v', 'props/C01_r2c.v'], 'props/C01_r2.v']      # the part of C01 that C12 needs (no O(r^3) files)
+C01_SEQ = ['props/C04_spec.v', 'props/C01_spec.v', 'props/C01_common.v', ['props/C01_facts2.v', 'props/C01_facts3.v', 'props/C01_r1.v'], 'props/C01_r2base.v', ['props/C01_r2a.v', 'props/C01_r2b.v', 'props/C01_r2c.v', 'props/C01_r3a.v', 'props/C01_r3b.v'], 'props/C01_r2.v', 'props/C01_r3.v', 'props/C01.v']
 
 
 # hand-written theories each check depends on (others are not built, so work in progress elsewhere cannot disturb it)
